@@ -34,7 +34,7 @@ class C05Oracle(Oracle):
 
     def __init__(self, world, sess, res):
         super().__init__(world, sess, res)
-        self.ledger = Ledger(world["labware"])
+        self.ledger = Ledger(world["labware"], exact_grid=world["regime"] == "quarter")
         self.ftol = Fraction(1, 10 ** 9) if world["regime"] == "quarter" else Fraction(1, 10 ** 6)
         self.device = world["device"]
         self.pre_comp = None
